@@ -8,6 +8,7 @@ import UnifexModel.Driver.Entries.Calc
 import UnifexModel.Driver.Entries.Timer
 import UnifexModel.Driver.Entries.Scope
 import UnifexModel.Driver.Entries.Bulk
+import UnifexModel.Driver.Entries.AnyObj
 
 namespace Unifex.Driver
 
@@ -21,6 +22,7 @@ def table : List ModelEntries :=
   , Entries.scopev1
   , Entries.scopev0
   , Entries.bulk
+  , Entries.anyobjEntries
   ]
 
 def lookup (m c : String) : Option Entry :=
